@@ -31,11 +31,66 @@ let invert_obs ops a piv dflt flat =
      | (C02_FMatrixError, o') -> "EXC FMatrixError | " ^ (if o'.ob_A = a then "U" else "MOD")
      | (C02_DivByZero, o') -> "EXC DivByZero | " ^ (if o'.ob_A = a then "U" else "MOD"))
 
+(* ---- round 6, magnitude stream: the rational instance c02_q on A' = diag(2^e) * A * diag(2^f) (built with the model's own
+   c02_scale2 / c02_scalev), same case format and output form as harness/C02/scale.cc:
+     Q <T><K><S> op n piv e_0.. f_0.. g a_ij.. [b_i..]     values: <odd mantissa in hex>p<exp> | 0 | R<num hex>/<den hex>
+   T = c / i (complex<double> with real entries / entries times the unit i): the real model value v is printed as the
+   complex number the C++ computation yields in exact arithmetic (solve, invert: -i v;  det: i^n v). *)
+let rec pos_pow2 k = if k = 0 then XH else XO (pos_pow2 (k - 1))
+let q_pow2 k = if k >= 0 then { qnum = Zpos (pos_pow2 k); qden = XH } else { qnum = Zpos XH; qden = pos_pow2 (-k) }
+let q_of_int i = { qnum = z_of_int i; qden = XH }
+let rec pos_bits = function XH -> [1] | XO p -> 0 :: pos_bits p | XI p -> 1 :: pos_bits p      (* least significant first *)
+let rec strip_tz bits k = match bits with 0 :: r -> strip_tz r (k + 1) | _ -> (bits, k)
+let hex_of_bits bits =
+  let rec go bits acc = match bits with
+    | [] -> acc
+    | _ -> let rec take n l v w = if n = 0 then (v, l) else (match l with [] -> (v, []) | b :: r -> take (n - 1) r (v + b * w) (w * 2)) in
+           let (d, rest) = take 4 bits 0 1 in go rest (Printf.sprintf "%x" d ^ acc) in
+  go bits ""
+let rec is_pow2 = function XH -> true | XO p -> is_pow2 p | XI _ -> false
+let q_str (x : q) =
+  match x.qnum with
+  | Z0 -> "0"
+  | Zpos p | Zneg p ->
+    let sg = (match x.qnum with Zneg _ -> "-" | _ -> "") in
+    if is_pow2 x.qden then
+      let (bits, tz) = strip_tz (pos_bits p) 0 in
+      let (_, dk) = strip_tz (pos_bits x.qden) 0 in
+      sg ^ hex_of_bits bits ^ "p" ^ string_of_int (tz - dk)
+    else sg ^ "R" ^ hex_of_bits (pos_bits p) ^ "/" ^ hex_of_bits (pos_bits x.qden)
+let q_neg_str x = let s = q_str x in if s = "0" then s else if s.[0] = '-' then String.sub s 1 (String.length s - 1) else "-" ^ s
+let q_case (t : string array) =
+  let kind = t.(1) and op = t.(2) and n = int_of_string t.(3) and pv = t.(4) in
+  let ty = kind.[0] in
+  let v = Array.map int_of_string (Array.sub t 5 (Array.length t - 5)) in
+  let nn = nat_of_int n in
+  let r = List.init n (fun i -> q_pow2 v.(i)) and s = List.init n (fun j -> q_pow2 v.(n + j)) and g = v.(2 * n) in
+  let a0 = List.init n (fun i -> List.init n (fun j -> q_of_int v.(2 * n + 1 + i * n + j))) in
+  let a = c02_scale2 c02_q nn r s a0 in
+  let b = if op = "solve" then c02_scalev c02_q nn (List.init n (fun _ -> q_pow2 g)) (List.init n (fun i -> q_of_int v.(2 * n + 1 + n * n + i))) else [] in
+  let piv = pv <> "0" and dflt = pv = "2" in
+  let cplx_vec x = (match ty with 'c' -> q_str x ^ ",0" | 'i' -> "0," ^ q_neg_str x | _ -> q_str x) in
+  let cplx_det x = (match ty with
+                    | 'c' -> q_str x ^ ",0"
+                    | 'i' -> (match n mod 4 with 0 -> q_str x ^ ",0" | 1 -> "0," ^ q_str x | 2 -> q_neg_str x ^ ",0" | _ -> "0," ^ q_neg_str x)
+                    | _ -> q_str x) in
+  let vs l = String.concat " " (List.map cplx_vec l) in
+  let exc = function C02_FMatrixError -> "EXC FMatrixError | U" | C02_DivByZero -> "EXC DivByZero | U" | C02_Ok _ -> "?" in
+  match op with
+  | "solve" -> (match (if chk then c02_solve_chk c02_q a b piv else if dflt then c02_solve_dflt c02_q a b else c02_solve c02_q a b piv) with
+                | C02_Ok x -> "OK " ^ vs x ^ " | U" | e -> exc e)
+  | "invert" -> (match (if chk then c02_invert_chk c02_q a piv else if dflt then c02_invert_dflt c02_q a else c02_invert c02_q a piv) with
+                 | C02_Ok bi -> "OK " ^ vs (List.concat bi) ^ " | U" | e -> exc e)
+  | "det" -> (match (if dflt then c02_determinant_dflt c02_q a else c02_determinant c02_q a piv) with
+              | C02_Ok d -> "OK " ^ cplx_det d ^ " | U" | e -> exc e)
+  | _ -> "UNKNOWN-OP"
+
 let () =
   let ic = open_in Sys.argv.(Array.length Sys.argv - 1) in
   (try while true do
     let line = input_line ic in
     let t = Array.of_list (List.filter (fun s -> s <> "") (String.split_on_char ' ' (String.trim line))) in
+    if t.(0) = "Q" then print_endline (q_case t) else
     let p = int_of_string t.(0) and kind = t.(1) and op = t.(2) and n = int_of_string t.(3) and piv = t.(4) <> "0" and dflt = t.(4) = "2" (* 2: the call uses the default argument: c02_*_dflt *) in
     let ops = c02_zp (z_of_int p) in
     let v = Array.map (fun s -> z_of_int (((int_of_string s) mod p + p) mod p)) (Array.sub t 5 (Array.length t - 5)) in
